@@ -153,8 +153,15 @@ def run(rep):
         # recursion must pass `all` on so that every ancestor is covered
         ok = bool(find_all(f, '$b.names(all)')) or bool(find_all(f, '$b.names(True)')) \
             or bool(find_all(f, '$b.names(all=True)'))
+    # ... and the walk over the ancestors visits all of them: no exit from inside it
+    early = [lp for lp in walk_local(f) if isinstance(lp, (ast.For, ast.While)) and
+             [n for n in ast.walk(lp) if isinstance(n, (ast.Break, ast.Return))]]
+    if early:
+        ok = False
     rep.check('R15.4', 'InterfaceClass.names', ok,
-              'names(all=True) is the union over all ancestors (%s)' % sorted(kinds),
+              'names(all=True) is the union over all ancestors (%s)' % sorted(kinds)
+              if not early else 'the walk over the ancestors can end early (break/return '
+              'inside the loop): names of later bases are missing',
               construct='union', node=f)
     f = ms['__iter__']
     rets = [n for n in walk_local(f) if isinstance(n, ast.Return)]
